@@ -24,6 +24,8 @@ enum Op {
     Inc(usize, u64),
     Set(usize, f64),
     Rec(usize, f64),
+    /// n values 0, 1, .., n-1 into one histogram (more than one 64-slot bucket block between two snapshots)
+    RecMany(usize, usize),
     Snapshot,
 }
 
@@ -113,6 +115,13 @@ impl Model {
                 self.register(K::H, &mk_key(i));
                 self.hists.get_mut(&canon(&mk_key(i))).unwrap().push(v.to_bits());
             }
+            Op::RecMany(i, n) => {
+                self.register(K::H, &mk_key(i));
+                let h = self.hists.get_mut(&canon(&mk_key(i))).unwrap();
+                for j in 0..n {
+                    h.push((j as f64).to_bits());
+                }
+            }
             Op::Snapshot => {}
         }
     }
@@ -175,14 +184,25 @@ fn apply_real(rec: &DebuggingRecorder, op: Op) {
         Op::Inc(i, v) => rec.register_counter(&mk_key(i), &META).increment(v),
         Op::Set(i, v) => rec.register_gauge(&mk_key(i), &META).set(v),
         Op::Rec(i, v) => rec.register_histogram(&mk_key(i), &META).record(v),
+        Op::RecMany(i, n) => {
+            let h = rec.register_histogram(&mk_key(i), &META);
+            for j in 0..n {
+                h.record(j as f64);
+            }
+        }
         Op::Snapshot => {}
     }
 }
 
-fn e3(ctx: &Ctx, res: &mut PartResult, depth: usize, first: Option<usize>) {
+/// second alphabet: histogram windows around the bucket's block size (64)
+fn block_alphabet() -> Vec<Op> {
+    vec![Op::RecMany(0, 63), Op::RecMany(0, 64), Op::RecMany(0, 65), Op::RecMany(0, 130), Op::Rec(0, 0.5), Op::RecMany(3, 65), Op::Snapshot]
+}
+
+fn e3(ctx: &Ctx, res: &mut PartResult, depth: usize, first: Option<usize>, blocks: bool) {
     res.engine = "E3 bounded exhaustive op sequences on the real DebuggingRecorder vs reference".into();
     vseq::quiet_panics();
-    let alpha = alphabet();
+    let alpha = if blocks { block_alphabet() } else { alphabet() };
     let mut states = vseq::States::new();
     let mut fails: Vec<(String, String, Vec<usize>)> = Vec::new();
     let mut transitions = 0u64;
@@ -231,7 +251,7 @@ fn e3(ctx: &Ctx, res: &mut PartResult, depth: usize, first: Option<usize>) {
         res.executions = n;
         res.exhaustive = complete;
         if !complete {
-            res.cap_hit = Some("wall budget".into());
+            res.cap_hit = Some("budget (cpu time of the part)".into());
         }
     }
     res.transitions = transitions;
@@ -241,7 +261,7 @@ fn e3(ctx: &Ctx, res: &mut PartResult, depth: usize, first: Option<usize>) {
     for (sig, msg, seq) in fails {
         res.violation(&sig, msg, json!({"seq": seq}));
     }
-    res.sample(json!({"ops": format!("{:?}", [alpha[1], alpha[7], alpha[13], alpha[17], alpha[2]])}));
+    res.sample(json!({"ops": if blocks { format!("{:?}", [alpha[2], alpha[6], alpha[4], alpha[3]]) } else { format!("{:?}", [alpha[1], alpha[7], alpha[13], alpha[17], alpha[2]]) }}));
 }
 
 /// two threads, each with its own locally installed DebuggingRecorder, emitting through the macros
@@ -403,12 +423,14 @@ fn parts(ctx: &Ctx) -> Vec<PartSpec> {
         for f in 0..alphabet().len() {
             v.push(PartSpec::new(&format!("e3-d5-first{}", f), json!({"depth": 5, "first": f})).budget(50.0));
         }
+        v.push(PartSpec::new("e3-blocks-d4", json!({"depth": 4, "blocks": true})).budget(50.0));
         v.push(PartSpec::new("e1-record-vs-snapshot-pb2", json!({"e1": 2})).cpus("0"));
         v.push(PartSpec::new("e1-two-registrants-pb2", json!({"e1": 2, "two": true})).cpus("0"));
     } else {
         for f in 0..alphabet().len() {
             v.push(PartSpec::new(&format!("e3-d6-first{}", f), json!({"depth": 6, "first": f})).budget(2400.0));
         }
+        v.push(PartSpec::new("e3-blocks-d6", json!({"depth": 6, "blocks": true})).budget(2400.0));
         v.push(PartSpec::new("e1-record-vs-snapshot-pb4", json!({"e1": 4})).cpus("0").budget(1500.0));
         v.push(PartSpec::new("e1-two-registrants-pb3", json!({"e1": 3, "two": true})).cpus("1").budget(1500.0));
     }
@@ -426,7 +448,7 @@ fn run(ctx: &Ctx, spec: &PartSpec) -> PartResult {
             e1(ctx, &mut res, pb as usize);
         }
     } else {
-        e3(ctx, &mut res, spec.arg["depth"].as_u64().unwrap_or(4) as usize, spec.arg["first"].as_u64().map(|x| x as usize));
+        e3(ctx, &mut res, spec.arg["depth"].as_u64().unwrap_or(4) as usize, spec.arg["first"].as_u64().map(|x| x as usize), spec.arg["blocks"].as_bool().unwrap_or(false));
     }
     res
 }
@@ -435,7 +457,7 @@ fn main() {
     driver::main(CheckDef {
         prop: "C19",
         level: "model_checking",
-        rule: "E3: every sequence of the stated depth over 18 operations (describe with/without unit and three texts, register of 4 keys incl. an equal key built differently and the same name under three kinds, counter/gauge/histogram updates, snapshot) on a fresh real DebuggingRecorder, plus a final snapshot; every snapshot compared with a reference (first-registration order, described-only metrics absent, latest description, unit kept, histogram values since the previous snapshot); all pairs of 3-step macro programs on two threads with local recorders; E1: all SC interleavings of a recording thread with a snapshotting thread; distinct = distinct snapshots",
+        rule: "E3: every sequence of depth <= 4 (thorough 6) over {63, 64, 65, 130 records into one histogram, one record, 65 records into another, snapshot} (windows around the 64-slot block size of the bucket); every sequence of the stated depth over 18 operations (describe with/without unit and three texts, register of 4 keys incl. an equal key built differently and the same name under three kinds, counter/gauge/histogram updates, snapshot) on a fresh real DebuggingRecorder, plus a final snapshot; every snapshot compared with a reference (first-registration order, described-only metrics absent, latest description, unit kept, histogram values since the previous snapshot); all pairs of 3-step macro programs on two threads with local recorders; E1: all SC interleavings of a recording thread with a snapshotting thread; distinct = distinct snapshots",
         assumptions: &["E1: sequential consistency, one registry shard"],
         parts,
         run,
